@@ -168,7 +168,8 @@ package basestore
 //@   loop 1 invariant len(headsForEvent) == len(heads)
 //@   loop 2 noexit
 //@   loop 2 invariant @C15 @C05 fetchCalls(0) == F0 + $i
-//@   loop 2 invariant amount == lim && statusProgress(b.replicationStatus) <= statusMax(b.replicationStatus) && b.oplog == L
+//@   loop 2 invariant @C15 amount == lim
+//@   loop 2 invariant statusProgress(b.replicationStatus) <= statusMax(b.replicationStatus) && b.oplog == L
 //@   loop 2 invariant forall j Int :: 0 <= j && j < len(heads) ==> heads[j] != nil && heads[j].Clock != nil
 //@   assert @ before call ipfslog.NewFromEntryHash#1: @C15 amount == lim
 //@   assert @ after call ipfslog.NewFromEntryHash#1: @C15 $r1 == nil ==> fetchLen(boxptr($r0, "berty.tech/go-ipfs-log.IPFSLog")) == lim
